@@ -1,2 +1,149 @@
--- line-protocol driver for C05 (stub; replaced when the property is built)
-def main : IO Unit := IO.println "stub"
+import Verif.Model.Constraints
+/-!
+  Line-protocol driver for C05 (name-constraints engine of the CA chain).
+
+  One case per line, `key=value` fields separated by single spaces.
+
+  Stage `eng` (engine as coded, against `constraints.New(chain...).Validate`):
+      st=eng lv=<level>|<level>|…   dns= ip= em= uri=
+    output: allow | deny:<excluded|notpermitted|matcherr>:<dns|ip|email|uri> | err:rfc822 | crash
+
+  Stage `chain` (end to end: what the property demands, against engine + `x509.Verify`):
+      st=chain ints=<cert>|… roots=<cert>|…   dns= ip= em= uri=
+    output: eng=<allow|deny|err|crash> vfy=<ok|nc|parse>[ why=<tag>]
+      vfy  = class of the standard verifier's answer predicted from the specification;
+      eng  = what the property allows the CA to answer: `deny` whenever vfy=nc;
+      why  = present when the *model of the engine as coded* accepts although vfy=nc, i.e. the
+             Lean model predicts a violation, with its cause:
+               d8:<kind>   permitted subtrees of that kind on two or more certificates (union)
+               rootdrop    the configured root is left out of the engine (key-id comparison)
+               v4mapped    an IPv4-mapped IPv6 subtree is re-read as an IPv4 one by the engine
+               other       none of these
+
+  <level> = pdns;xdns;pip;xip;pem;xem;puri;xuri      lists: items joined by ',' or '-' if empty
+  <cert>  = subject~issuer~ski~aki~<level>
+  string = x<hex>; IP net = x<ip hex>/x<mask hex>; IP = x<hex>; URI = x<host>:x<split>|!:0|1
+-/
+open Verif Verif.Constraints
+open Verif.Policy (Uri)
+
+namespace C05
+
+def str? (t : String) : Option Str :=
+  if t.startsWith "x" then unhex (t.drop 1).toString else none
+
+def optStr? (t : String) : Option (Option Str) :=
+  if t = "!" then some none else (str? t).map some
+
+def bool? (t : String) : Option Bool :=
+  if t = "1" then some true else if t = "0" then some false else none
+
+def list? {α : Type} (sep : String) (f : String → Option α) (t : String) : Option (List α) :=
+  if t = "-" then some [] else (t.splitOn sep).mapM f
+
+def net? (t : String) : Option IpNet :=
+  match t.splitOn "/" with
+  | [a, b] => do pure ⟨(← str? a), (← str? b)⟩
+  | _ => none
+
+def uri? (t : String) : Option Uri :=
+  match t.splitOn ":" with
+  | [a, b, c] => do pure ⟨(← str? a), (← optStr? b), (← bool? c)⟩
+  | _ => none
+
+def level? (t : String) : Option Level :=
+  match t.splitOn ";" with
+  | [a, b, c, d, e, f, g, h] => do
+    pure { pDNS := (← list? "," str? a), xDNS := (← list? "," str? b),
+           pIP := (← list? "," net? c), xIP := (← list? "," net? d),
+           pEmail := (← list? "," str? e), xEmail := (← list? "," str? f),
+           pURI := (← list? "," str? g), xURI := (← list? "," str? h) }
+  | _ => none
+
+def cert? (t : String) : Option Cert :=
+  match t.splitOn "~" with
+  | [a, b, c, d, l] => do pure ⟨(← str? a), (← str? b), (← str? c), (← str? d), (← level? l)⟩
+  | _ => none
+
+def lookup (kv : List (String × String)) (k : String) : Option String :=
+  (kv.find? (·.1 = k)).map (·.2)
+
+def kindS : Kind → String
+  | .dns => "dns" | .ip => "ip" | .email => "email" | .uri => "uri"
+def reasonS : Reason → String
+  | .excluded => "excluded" | .notPermitted => "notpermitted" | .matchErr => "matcherr"
+def verdictS : Verdict → String
+  | .allow => "allow" | .deny r k => s!"deny:{reasonS r}:{kindS k}" | .errRfc822 => "err:rfc822" | .crash => "crash"
+def classS : Verdict → String
+  | .allow => "allow" | .deny _ _ => "deny" | .errRfc822 => "err" | .crash => "crash"
+def goS : GoV → String
+  | .ok => "ok" | .nc => "nc" | .parse => "parse"
+
+/-- The engine whose answers stage `eng` compares with the code.
+    After the D8 fix this line becomes `validatePerCert chain n` (see `engine_eq_spec`). -/
+def engineUnderTest (chain : List Level) (n : Names) : Verdict := validate (New chain) n
+
+def names? (kv : List (String × String)) : Option Names := do
+  let dns ← list? "," str? (← lookup kv "dns")
+  let ips ← list? "," str? (← lookup kv "ip")
+  let ems ← list? "," str? (← lookup kv "em")
+  let uris ← list? "," uri? (← lookup kv "uri")
+  pure { dns, ips, emails := ems, uris }
+
+/-- number of certificates carrying permitted subtrees of a kind -/
+def nPermitted (k : Kind) (chain : List Level) : Nat :=
+  (chain.filter fun l => match k with
+    | .dns => !l.pDNS.isEmpty | .ip => !l.pIP.isEmpty
+    | .email => !l.pEmail.isEmpty | .uri => !l.pURI.isEmpty).length
+
+def why (full : List Level) (n : Names) : String :=
+  -- would the engine have refused had every configured root been part of it?
+  if validate (New full) n ≠ .allow then "rootdrop"
+  else match validatePerCert full n with
+  | .deny .notPermitted k => if nPermitted k full ≥ 2 then s!"d8:{kindS k}" else "other"
+  | .allow =>
+    -- every certificate's own engine accepts: the engine's matchers differ from the verifier's
+    if full.any (fun l => (l.pIP ++ l.xIP).any fun x => normalizeIP x.ip != x.ip) then "v4mapped"
+    else "other"
+  | _ => "other"
+
+def evalChain (kv : List (String × String)) : Option String := do
+  let ints ← list? "|" cert? (← lookup kv "ints")
+  let roots ← list? "|" cert? (← lookup kv "roots")
+  let n ← names? kv
+  -- the path a relying party validates: issuing CA … top intermediate, configured root
+  let full := (ints ++ roots).map (·.nc)
+  -- the specification decides accept / reject; the verifier model only names the class of a refusal
+  let v := match specAccept full n, goVerify full n with
+    | true, .ok => GoV.ok
+    | false, .nc => GoV.nc
+    | false, .parse => GoV.parse
+    | _, _ => GoV.ok   -- spec and verifier model disagree: flagged below
+  if (specAccept full n) != (goVerify full n == .ok) then pure "spec-mismatch" else
+  let coded := match chainFor ints roots with
+    | none => Verdict.allow
+    | some ch => engineUnderTest (ch.map (·.nc)) n
+  match v with
+  | .nc =>
+    -- the property: a name outside the constraints must not be signed (403, or the 500 of an
+    -- unparsable rfc822Name met on the way, are both refusals)
+    if coded = .allow then pure s!"eng=deny vfy=nc why={why full n}"
+    else pure s!"eng={classS coded} vfy=nc"
+  | v => pure s!"eng={classS coded} vfy={goS v}"
+
+def eval (line : String) : Option String := do
+  let kv := (fields line).filterMap fun f =>
+    match f.splitOn "=" with
+    | [k, v] => some (k, v)
+    | _ => none
+  match ← lookup kv "st" with
+  | "eng" =>
+    let chain ← list? "|" level? (← lookup kv "lv")
+    let n ← names? kv
+    pure (verdictS (engineUnderTest chain n))
+  | "chain" => evalChain kv
+  | _ => none
+
+end C05
+
+def main : IO Unit := Verif.lineLoop fun l => (C05.eval l).getD "parse-error"
